@@ -340,7 +340,11 @@ class Gen:
             nm = self.name("c")
             ts = self.ch.choice([{"base": "integer", "kind": None}, {"base": "real", "kind": None},
                                  {"base": "logical", "kind": None}])
-            scope["decls"].append(self._simple_decl(ts, nm))
+            d = self._simple_decl(ts, nm)
+            if scope.get("k") == "blockdata" and self.ch.bool(1, 2):
+                # an array in a common block: the renderer may give its shape by a DIMENSION statement
+                d["dimattr"] = self.ch.choice(["(3)", "(2,2)"])
+            scope["decls"].append(d)
             out.append(nm)
         return out
 
@@ -669,6 +673,13 @@ class Gen:
         b = {"k": "blockdata", "name": self.name("bd") if ch.bool(2, 3) else None, "uses": [], "decls": [], "doc": None}
         b["doc"] = self.doc(("blockdata", b["name"]))
         self.common(b)
+        if ch.bool(1, 2):
+            # a named constant given by a PARAMETER statement, and a SAVE statement for a block
+            k = self.name("bdk")
+            d = self._simple_decl({"base": "integer", "kind": None}, k)
+            d["parameter"] = True
+            d["ents"][0]["init"] = "7"
+            b["decls"].insert(0, d)
         return b
 
     def project(self):
